@@ -6,6 +6,8 @@ import (
 	"debug/elf"
 	"debug/gosym"
 	"fmt"
+	"math"
+	"math/bits"
 	"os"
 	"runtime"
 	"runtime/debug"
@@ -232,6 +234,50 @@ func TestC20Holder(t *testing.T) {
 			g = 16
 		}
 		holderRound(rep, rng, g, sizes[rng.Intn(len(sizes))], r > 0, r)
+	}
+	// impossible requests (the kernel refuses the mapping by itself, so they reach the reserve through the public entry
+	// point) between ordinary ones: each is an error, and the ordinary ones stay inside the reserve and disjoint
+	atomic.StoreUintptr(&placeHolderIns.off, placeHolderIns.min)
+	{
+		type reg struct{ lo, hi uintptr }
+		var got []reg
+		ordinary := func(n int) {
+			for i := 0; i < n; i++ {
+				addr, _, err := acquireFromHolder(48)
+				rep.Eval(1)
+				if err != nil {
+					rep.Violate("C20/holder-refuses-after-impossible-request", fmt.Sprintf("a 48-byte request with %d bytes of the reserve in use is refused after impossible requests were refused: %v",
+						atomic.LoadUintptr(&placeHolderIns.off)-placeHolderIns.min, err), nil)
+					return
+				}
+				if addr < placeHolderIns.min || addr+48 > placeHolderIns.max {
+					rep.Violate("C20/holder-outside-reserve", fmt.Sprintf("region [%#x,+48) outside reserve [%#x,%#x) after impossible requests", addr, placeHolderIns.min, placeHolderIns.max), nil)
+				}
+				for _, r := range got {
+					if addr < r.hi && r.lo < addr+48 {
+						rep.Violate("C20/holder-overlap", fmt.Sprintf("region [%#x,+48) overlaps [%#x,%#x) handed out before the impossible requests", addr, r.lo, r.hi), nil)
+						break
+					}
+				}
+				got = append(got, reg{addr, addr + 48})
+			}
+		}
+		ordinary(3)
+		for _, huge := range []int{math.MaxInt64, 1 << 62, math.MaxInt64 - 4095, 1 << 63 >> 1, 3 << 61, math.MaxInt64 - 47} {
+			for rep4 := 0; rep4 < 4; rep4++ {
+				rep.Journal(map[string]interface{}{"part": "impossible-request", "len": huge, "n": rep4})
+				sp, err := Acquire(huge)
+				rep.Eval(1)
+				if err == nil {
+					rep.Violate("C20/impossible-request-granted", fmt.Sprintf("request #%d for %d bytes was granted a region at %#x (reserve [%#x,%#x))", rep4+1, huge, sp.Addr, placeHolderIns.min, placeHolderIns.max),
+						map[string]interface{}{"len": huge, "nth": rep4 + 1})
+				}
+				ordinary(2)
+			}
+			rep.Class(fmt.Sprintf("impossible-request/%d-bit", bits.Len64(uint64(huge))))
+		}
+		rep.Stat("impossible_requests", 24)
+		rep.Stat("ordinary_regions_between_impossible_requests", int64(len(got)))
 	}
 	// executing a stub written into the fallback reserve through the public writer
 	atomic.StoreUintptr(&placeHolderIns.off, placeHolderIns.min)
